@@ -30,7 +30,9 @@ def image_for(kind, upb_bounds):
         v['info_free'] = 'unknown'
     return dict(vols=[v]), upc, bounds
 
-def to_history(hid, labels, kind, bounds):
+def to_history(hid, steps, kind, bounds):
+    labels = [x[0] for x in steps]
+    plans = [x[1] for x in steps]
     image, upc, bounds = image_for(kind, bounds)
     ops = fsgen.prologue()
     fsgen.fix_slot(image, ops)
@@ -71,7 +73,8 @@ def to_history(hid, labels, kind, bounds):
     for nm, var in cur.items():
         ops.append(fsgen.O('close_file', f=var))
     ops += [fsgen.O('iterate', d='d0'), fsgen.O('lookup_all', d='d0'), fsgen.O('close_dir', d='d0'), fsgen.O('close_volume', v='v0'), fsgen.O('remount')]
-    return dict(id=hid, src='tour', image=image, bounds=bounds, limits=[4, 4, 1], ops=ops, expect=expect, labels=labels)
+    expect = [(e[0], e[1], plans[i]) for i, e in enumerate(expect)]
+    return dict(id=hid, src='tour', image=image, bounds=bounds, limits=[4, 4, 1], ops=ops, expect=expect, labels=labels, kind=kind)
 
 def tour_histories(seed, quick):
     H = []
@@ -82,31 +85,83 @@ def tour_histories(seed, quick):
             H.append(to_history('T%d-%d' % (kind, i), labels, kind, rng.choice(fsgen.BOUNDS[:2])))
     return H
 
+FILLER = 14     # pre-filled slots of the root directory of the tour images
+
+def abstract_writes(ws, g):
+    """the real device writes of one call in the vocabulary of FatImpl's plans: FAT entries (cluster numbers renamed to the
+    model's: the window of the image in ascending order is 2, 3, ...), directory slots, zeroed / dot-initialised directory
+    clusters.  File data and the FAT32 information sector are not part of the model."""
+    win = sorted(g['win'])
+    def m(c):
+        return 2 + win.index(c) if c in win else 1000 + c
+    eoc = 0xFFF8 if not g['fat32'] else 0x0FFFFFF8
+    out = []
+    for e in ws:
+        reg = e['reg']
+        if reg in ('fat1', 'fat2'):
+            vals = {x['c']: x.get('hi', 0) * 65536 + x['v'] for x in e['fat']}
+            for c in e['chg']:
+                v = vals.get(c, 0)
+                out.append(['fat' if reg == 'fat1' else 'fat2', m(c), 0 if v == 0 else -1 if v >= eoc else m(v)])
+        elif reg == 'root':
+            for i in e['chg']:
+                out.append(['slot', 0, i - FILLER + 1])
+            if not e['chg']:
+                out.append(['slot', 0, '?'])          # rewritten with the bytes it had: which slot cannot be told
+        elif reg == 'data':
+            c = (e['blk'] - g['dataStart']) // g['bpc'] + 2
+            isdir = any(u['w'] == 's' for u in e['up'])
+            if e.get('z'):
+                out.append(['zero', m(c)])
+            elif e.get('dot'):
+                out.append(['dots', m(c)])
+            elif isdir:
+                off = FILLER if g['fat32'] and c == g['rootClus'] else 0
+                for i in e['chg']:
+                    out.append(['slot', m(c), i - off + 1])
+                if not e['chg']:
+                    out.append(['slot', m(c), '?'])
+    return out
+
+def same_writes(model, real):
+    return len(model) == len(real) and all(len(a) == len(b) and all(x == y or y == '?' for x, y in zip(a, b)) for a, b in zip(model, real))
+
 def drift(result_dir, histories):
-    """compare the outcomes the model predicts (ok flags of create / extend / mkdir) with what the implementation did"""
+    """compare what the model predicts - the outcome of each call (ok flags of create / extend / mkdir) and the device writes
+    it issues, in order - with what the implementation did"""
     exp = {h['id']: h['expect'] for h in histories if 'expect' in h}
     import glob
     mism, total = [], 0
     for tr in glob.glob(os.path.join(result_dir, 'trace-*.ndjson')):
-        hid, seq = None, []
+        hid, seq, cur, g = None, [], None, None
         def flush():
             nonlocal total
             if hid in exp:
                 want = exp[hid]
                 got = [x for x in seq][2:2 + len(want)]     # after open_volume, open_root
-                for w, g in zip(want, got):
+                for w, x in zip(want, got):
                     total += 1
-                    if w[0] != g[0] or w[1] != g[1]:
-                        mism.append(dict(hid=hid, want=w, got=g))
+                    real = abstract_writes(x[2], g)
+                    if w[0] != x[0] or w[1] != x[1]:
+                        mism.append(dict(hid=hid, want=[w[0], w[1]], got=[x[0], x[1]]))
+                        break
+                    if not same_writes([list(p) for p in w[2]], real):
+                        mism.append(dict(hid=hid, want=[w[0], 'writes', w[2]], got=[x[0], 'writes', real]))
                         break
         with open(tr) as fh:
             for line in fh:
                 e = json.loads(line)
                 if e['ev'] == 'Reset':
                     flush()
-                    hid, seq = e['hid'], []
+                    hid, seq, cur = e['hid'], [], None
+                    g = e['vols'][0]['g'] if e.get('vols') else None
+                elif e['ev'] == 'Call':
+                    cur = []
+                elif e['ev'] == 'W' and cur is not None:
+                    cur.append(e)
                 elif e['ev'] == 'Ret':
-                    seq.append((e['op'], e['r']['k'] == 'ok'))
+                    seq.append((e['op'], e['r']['k'] == 'ok', cur or []))
+                    cur = None
         flush()
     return total, mism
 
